@@ -116,6 +116,7 @@ pub fn run_history(opts: &Opts, ops: &[AbsOp], st: &mut Stats) -> Result<(), Fai
             json!({"opts": o.letters(), "events": tr.iter().take(40).map(gen::ev_to_string).collect::<Vec<_>>()})
         });
     }
+    gen::journal::end();
     match failure {
         Some(f) => Err(f),
         None => Ok(()),
@@ -175,10 +176,13 @@ fn sweep(run: &Run) {
                     // establish the state
                     let mut trace: Vec<String> = vec![];
                     let mut res: Result<(), PanicInfo> = (|| {
+                        gen::journal::begin(&opts);
+                        gen::journal::event(&Ev::Finish);
                         ctx.finish()?;
                         let mut last = None;
                         for (c, md) in prefix {
                             trace.push(format!("K:{}:{md}:0", keys().by_code(keys().code_for(*c)).unwrap().name));
+                            gen::journal::event(&Ev::Key { code: keys().code_for(*c), m: *md, sel: 0 });
                             last = Some(ctx.key(keys().code_for(*c), *md, 0)?);
                         }
                         match *action {
@@ -186,6 +190,7 @@ fn sweep(run: &Run) {
                                 if let Some(r) = &last {
                                     if r.choices() > 0 {
                                         trace.push(format!("commit:{}", r.choices() - 1));
+                                        gen::journal::event(&Ev::Commit(r.choices() - 1));
                                         ctx.commit(r.choices() - 1)?;
                                     }
                                 }
@@ -194,15 +199,18 @@ fn sweep(run: &Run) {
                                 if let Some(r) = &last {
                                     if r.choices() > 1 {
                                         trace.push("commit:1".into());
+                                        gen::journal::event(&Ev::Commit(1));
                                         ctx.commit(1)?;
                                     } else if r.choices() > 0 {
                                         trace.push("commit:0".into());
+                                        gen::journal::event(&Ev::Commit(0));
                                         ctx.commit(0)?;
                                     }
                                 }
                             }
                             "bs" => {
                                 trace.push("bs".into());
+                                gen::journal::event(&Ev::Backspace);
                                 ctx.backspace(false)?;
                             }
                             _ => {}
@@ -211,7 +219,9 @@ fn sweep(run: &Run) {
                     })();
                     if res.is_ok() {
                         trace.push(format!("K:{}:{m}:0", k.name));
+                        gen::journal::event(&Ev::Key { code: k.code, m, sel: 0 });
                         res = ctx.key(k.code, m, 0).map(|_| ());
+                        gen::journal::end();
                     }
                     st.evals(1);
                     if let Err(p) = res {
@@ -275,7 +285,9 @@ fn long_words(run: &Run) {
             let sb = Sandbox::new();
             let ctx = Ctx::new(opts, &sb).map_err(|p| Failure::new(panic_kind(&p), p.to_string(), json!({"opts": opts.letters()})))?;
             let mut times: Vec<u128> = vec![];
+            gen::journal::begin(&opts);
             for (n, c) in w.chars().enumerate() {
+                gen::journal::event(&Ev::Key { code: keys().code_for(c), m: 0, sel: 0 });
                 let t0 = std::time::Instant::now();
                 ctx.ch(c, 0).map_err(|p| Failure::new(panic_kind(&p), format!("long word {w:?} key #{n}: {p}"), json!({"opts": opts.letters(), "long_word": w})))?;
                 let ms = t0.elapsed().as_millis();
@@ -288,6 +300,7 @@ fn long_words(run: &Run) {
                     ));
                 }
             }
+            gen::journal::end();
             st.count("long-word-keys", w.chars().count() as u64);
             st.count("long-word-calls-over-100ms", times.iter().filter(|t| **t > 100).count() as u64);
             st.label("long-word-typed");
